@@ -40,6 +40,12 @@ def scenario(g, i):
         extra += [{"p": "dangling_" + s, "k": "l", "t": "nowhere/" + s}, {"p": "ln_to_file", "k": "l", "t": "crlf.txt"}]
     if i % 5 == 2:
         extra += [{"p": "sp ace " + s + ".txt", "k": "f", "c": (s + "\n").encode(), "m": 0o644}]
+    if i % 4 == 2:
+        # symlinks named with the term that point at directories the same operation renames (shallower / same depth / deeper)
+        extra += [{"p": "pkg", "k": "d", "m": 0o755}, {"p": "pkg/" + s + "_dir", "k": "d", "m": 0o755},
+                  {"p": "pkg/" + s + "_dir/readme.md", "k": "f", "c": (s + " docs\n").encode(), "m": 0o644},
+                  {"p": s + "_link", "k": "l", "t": "pkg/" + s + "_dir"}, {"p": "pkg/a_" + s + "_ln", "k": "l", "t": s + "_dir"},
+                  {"p": "pkg/" + s + "_dir/up_" + s, "k": "l", "t": ".."}]
     if i % 3 == 1:
         # names that need quoting in a unified-diff header or in a shell: quote, backslash, tab, apostrophe, leading dash, unicode
         odd = ['we"ird ' + s + '.txt', "back\\slash_" + s + ".txt", "tab\t" + s + ".txt", "it's_" + s + ".md", "-dash " + s, "ünï_" + s + ".txt",
@@ -50,7 +56,7 @@ def scenario(g, i):
         else:
             extra += [{"p": nm, "k": "f", "c": ("x " + s + " y\n").encode(), "m": 0o644}]
     seen, out = set(), []
-    forced = [e for e in extra if any(ch in e["p"] for ch in '"\\\t\'') or e["p"].startswith("-") or "ünï" in e["p"]]
+    forced = [e for e in extra if any(ch in e["p"] for ch in '"\\\t\'') or e["p"].startswith("-") or "ünï" in e["p"] or e["p"].startswith("pkg") or e["p"].endswith("_link")]
     for e in tree + r.sample(extra, r.randint(3, len(extra))) + forced:
         if e["p"] not in seen:
             seen.add(e["p"])
